@@ -798,12 +798,11 @@ def scenario_walk(a, steps, viol, rehash=False):
         if rng.random() < 0.14 and usedpos:
             pos = rng.choice(usedpos)
             ds = [d for d in a.disks if pos in a.owner[d] and (d, a.owner[d][pos][0]) not in a.changed]
-            # (an EIO followed, on the same disk / parity level, by a read past the end of a truncated file is kept out
-            #  of the walks: the reader then sees the stale errno, see probe_stale_errno)
-            ds = [d for d in ds if not any(isinstance(v, tuple) and k2[0] == d for k2, v in a.changed.items())]
+            # (an EIO followed, on the same disk / parity level, by a read past the end of a truncated file is allowed:
+            #  regression of F-C15-stale-errno-eio, see also probe_stale_errno)
             if rng.random() < 0.35:
                 l = rng.randrange(a.npar)
-                if l not in a.ptrunc:
+                if not (l in a.ptrunc and pos >= a.ptrunc[l][0]):
                     eio = ('parity', l, pos)          # I/O error reading the parity
             elif ds:
                 eio = (rng.choice(ds), pos)
@@ -1001,32 +1000,51 @@ def probe_misc(tool, shim, model_exe, chk, seed):
 
 
 def probe_stale_errno(tool, shim, model_exe, chk, seed):
-    """candidate finding: scrub_data_reader / scrub_parity_reader look at errno after handle_read / parity_read
-    returned -1 for a read past the end of a (truncated) file, a path that does not set errno.  After one genuine EIO on
-    the same disk (same reader thread) the stale EIO makes the stripe of a file *changed since the last sync* an
-    I/O error: it is marked bad.  Returns (reproduced, description, replay object)."""
+    """regression of F-C15-stale-errno-eio (fixed in /repo 79689a5): the readers of scrub tested errno after
+    handle_read / parity_read returned -1 for a read past the end of a truncated file, a path that did not set errno;
+    after one genuine EIO on the same disk (same reader thread) the stripes of a file *changed since the last sync*
+    (or of a parity file cut short) were booked as I/O errors and marked bad.
+    Two deterministic arrays: the data reader and the parity reader.  Returns a list of (tag, what, replay object)."""
     import random
-    stats = new_stats()
-    m = Model(model_exe)
-    a = Arr('stale', tool, shim, m, random.Random(seed), 2, 1, 1700000000, lambda *x: None, stats)
-    try:
-        a.add_files([('d1', 1), ('d1', 1), ('d1', 3), ('d2', 5)])      # d1: stripes 0, 1, 2-4; d2: stripes 0-4
-        a.sync()
-        name = sorted(n for (d, n) in a.files if d == 'd1')[2]
-        a.change_file('d1', name, ('trunc', 1, 5 * 10 ** 9))            # stripes 3 and 4 are now past the end of the file
-        a.tick(DAY)
-        first = sorted(n for (d, n) in a.files if d == 'd1')[0]
-        rc, out, lt = a.run(['-p', 'full', 'scrub'], extra_env={'C15_EIO_PATH': 'd1/' + first, 'C15_EIO_OFFSET': '0'})
-        blocks, _, _ = a.status()
-        bad = [k for k, b in enumerate(blocks) if b['bad']]
-        tags = re.findall(r'^(error:\d+:[^:]*:[^:]*: [A-Za-z ]+)', lt, re.M)
-        recipe = {'conf': '2 data disks, 1 parity, blocksize 1', 'files': 'd1: a (1 KiB), b (1 KiB), c (3 KiB); d2: z (5 KiB); sync',
-                  'change': 'truncate -s 1024 d1/c (and new mtime)', 'scrub': '-p full with pread(d1/a, offset 0) failing with EIO (harness/c/c15_shim.c)',
-                  'bad_stripes_after': bad, 'error_tags': tags, 'exit': rc}
-        return (3 in bad or 4 in bad), 'stripes %s marked bad; expected only stripe 0 (the genuine EIO); tags %s' % (bad, tags), recipe
-    finally:
-        m.close()
-        shutil.rmtree(a.root, ignore_errors=True)
+    out_v = []
+    for twin in ('data', 'parity'):
+        m = Model(model_exe)
+        a = Arr('stale_' + twin, tool, shim, m, random.Random(seed), 2, 1, 1700000000, lambda *x: None, new_stats())
+        try:
+            a.add_files([('d1', 1), ('d1', 1), ('d1', 3), ('d2', 5)])      # d1: stripes 0, 1, 2-4; d2: stripes 0-4
+            a.sync()
+            before, _, _ = a.status()
+            if twin == 'data':
+                name = sorted(n for (d, n) in a.files if d == 'd1')[2]
+                a.change_file('d1', name, ('trunc', 1, 5 * 10 ** 9))        # stripes 3 and 4 are past the end of the file
+                first = sorted(n for (d, n) in a.files if d == 'd1')[0]
+                env = {'C15_EIO_PATH': 'd1/' + first, 'C15_EIO_OFFSET': '0'}
+                recipe = {'files': 'd1: a (1 KiB), b (1 KiB), c (3 KiB); d2: z (5 KiB); sync', 'change': 'truncate -s 1024 d1/c (and new mtime)',
+                          'scrub': '-p full with pread(d1/a, offset 0) failing with EIO (harness/c/c15_shim.c)'}
+            else:
+                a.truncate_parity(0, 3)                                     # parity positions 3 and 4 are gone
+                env = {'C15_EIO_PATH': 'p1/parity', 'C15_EIO_OFFSET': '0'}
+                recipe = {'files': 'd1: a (1 KiB), b (1 KiB), c (3 KiB); d2: z (5 KiB); sync', 'change': 'truncate -s 3072 parity',
+                          'scrub': '-p full with pread(parity, offset 0) failing with EIO (harness/c/c15_shim.c)'}
+            a.tick(DAY)
+            rc, out, lt = a.run(['-p', 'full', 'scrub'], extra_env=env)
+            blocks, _, _ = a.status()
+            bad = [k for k, b in enumerate(blocks) if b['bad']]
+            eio_tags = sorted(set(int(x) for x in re.findall(r'^(?:parity_)?error:(\d+):[^\n]*EIO', lt, re.M)))
+            summ = dict((mm.group(1), int(mm.group(2))) for mm in re.finditer(r'^summary:(error_\w+):(\d+)$', lt, re.M))
+            recipe.update({'conf': '2 data disks, 1 parity, blocksize 1', 'bad_stripes_after': bad, 'stripes_with_EIO_tags': eio_tags, 'summary': summ, 'exit': rc})
+            t8 = a.T & ~7
+            ok = (bad == [0] and eio_tags == [0] and summ.get('error_io') == 1 and summ.get('error_file') == 2 and summ.get('error_data') == 0 and rc != 0
+                  and all(blocks[k]['time'] == before[k]['time'] for k in (0, 3, 4)) and all(blocks[k]['time'] == t8 for k in (1, 2)))
+            if not ok:
+                out_v.append(('stale_errno_' + twin,
+                              'after a genuine EIO at stripe 0 the %s reader books the reads past the end of a truncated %s as I/O errors: bad stripes %s, EIO tags at %s, '
+                              'summary %s (expected: bad [0], EIO tag [0], 1 io error, 2 file errors, stripes 3 and 4 unchanged, 1 and 2 refreshed)'
+                              % (twin, 'file changed since the last sync' if twin == 'data' else 'parity file', bad, eio_tags, summ), recipe))
+        finally:
+            m.close()
+            shutil.rmtree(a.root, ignore_errors=True)
+    return out_v
 
 
 def probe_wraparound(tool, shim, model_exe, chk, seed):
@@ -1338,20 +1356,15 @@ def main(tier, replay=None):
         except Exception as e:
             chk.notes.append('inconclusive: misc probe stopped by %s: %s' % (type(e).__name__, str(e)[:200]))
 
-    # ---- candidate finding: stale errno after a genuine EIO (reported as KNOWN-FINDING once it is listed as open)
+    # ---- regression of F-C15-stale-errno-eio (data reader and parity reader)
     if not replay:
         try:
-            hit, desc, recipe = probe_stale_errno(tool, shim, model_exe, chk, chk.seed)
-            chk.cov['stale_errno_probe'] = {'reproduced': hit, 'observed': desc}
-            if hit:
-                what = ('scrub marks bad the stripes of a file truncated since the last sync (read past its end) when an earlier read of the same '
-                        'disk failed with EIO: scrub.c:198 tests a stale errno; ' + desc)
-                if any(k.get('status') == 'open' and k.get('key') == STALE_ERRNO_KEY for k in chk.kf):
-                    chk.violation('stale_errno', what, recipe, finding_key=STALE_ERRNO_KEY)
-                else:
-                    chk.notes.append('candidate finding %s (not listed in known_findings.json, so not raised): %s' % (STALE_ERRNO_KEY, what))
+            sv = probe_stale_errno(tool, shim, model_exe, chk, chk.seed)
+            chk.cov['stale_errno_regression'] = {'arrays': 2, 'failed': [t for t, _, _ in sv]}
+            for tag, what, recipe in sv:
+                chk.violation(tag, what, recipe)
         except Exception as e:
-            chk.notes.append('stale errno probe failed: %s' % str(e)[:200])
+            chk.notes.append('inconclusive: stale errno regression stopped by %s: %s' % (type(e).__name__, str(e)[:200]))
 
     # ---- failing-input search on the model and the exhaustive stripe book-keeping comparison
     mbad, nontriv_m, nm = model_search(chk, model_exe, 4000 if tier == 'quick' else 40000)
@@ -1412,7 +1425,7 @@ def main(tier, replay=None):
                         'the qsort of scrub.c is modelled by its specification (ascending rearrangement); time_compare is a total order on time_t',
                         'hash collisions, fatal task states (TASK_STATE_ERROR/IOERROR: close/open EIO) and the autosave path are not exercised on the binary',
                         'exercised by oracle only (not in the Coq model): how the readers classify a failed read (errno == EIO or not; the model takes the '
-                        'task state as input, candidate finding F-C15-stale-errno-eio lives there), where the rehash stores the new hashes (checked by '
+                        'task state as input; F-C15-stale-errno-eio, fixed in 79689a5, lived there and has a regression scenario), where the rehash stores the new hashes (checked by '
                         'repairing everything and requiring two clean full scrubs at the end of every history), the clamping of future times when the content is saved',
                         'never reached on the binary: a disk slot without disk (scrub.c:118), the autosave inside scrub (needs > 1 GB arrays), the signal break, close errors',
                         'stripe -> file layout is predicted by the harness (files are only ever added, alpha order) and validated by the positions in the error: tags']
